@@ -8,7 +8,7 @@ LEVEL = "proof"
 def run(run):
     rng = run.rng
     run.do_ties()
-    quick = run.tier == "quick"
+    quick = run.quick
     sets = []
     # corpus first: the witnesses of the repaired defects F1, F2 (DESIGN.md section 7)
     base1 = spec.encode(0, 1, ())
